@@ -119,6 +119,7 @@ var propOverrides = map[string]func(*propCfg){
 	"C22": func(c *propCfg) { c.quickRuns, c.quickSecs = 1500, 110 },
 	"C23": func(c *propCfg) { c.quickRuns, c.quickSecs = 800, 100 },
 	"C29": func(c *propCfg) { c.quickRuns, c.quickSecs = 1500, 100 },
+	"C32": func(c *propCfg) { c.quickRuns, c.quickSecs = 2500, 100 },
 	"C41": func(c *propCfg) {
 		c.race = true
 		c.quickRuns, c.quickSecs = 160, 150 // a race-detector run costs ~0.7 s of (mostly kernel) time and does not parallelise well in this VM
